@@ -1,6 +1,6 @@
 """Prepare a round of BENIGN changes: fresh sub-agents make behaviour-preserving refactors in the code a property depends
 on.  Every alarm a check raises on one of them is a false alarm of the machinery.
-usage: gen_benign_prompts.py /tmp/benign1 [PID ...]"""
+usage: gen_benign_prompts.py /tmp/benign1 [PID ...]          (ROUND=2 in the environment: 4 bolder refactors per property)"""
 import glob, json, os, shutil, subprocess, sys
 HERE = os.path.dirname(os.path.dirname(os.path.abspath(__file__)))
 T = '''You are working alone in a scratch git worktree of the open-source Python library dask/fastparquet at {wt} (a detached checkout; the compiled extension modules *.so are already copied in). Work ONLY inside {wt}. Do not read or touch /verif or /repo. Cython is NOT installed: change only .py files under {wt}/fastparquet/ (not the tests, not test-data).
@@ -24,7 +24,13 @@ For each change n in 1..3 write:
 Verify each change yourself: apply the patch, `import fastparquet`, run the full suite (same pass/fail sets as baseline - compare the ids), and exercise the touched function with a small script of your own comparing results before and after on a few inputs; then revert with `git checkout -- .`. Leave the worktree clean (no patch applied; only out/ untracked) when you finish. Finish with a short report: one line per change.'''
 
 
+BOLD = ('YOUR TASK: produce 4 independent, BEHAVIOUR-PRESERVING refactors', ' At least three of the four must change the STRUCTURE of the code, not just names or comments: move code between functions (extract a helper used from two places, inline a small helper into its only caller, turn a closure into a module-level function or a method), re-arrange control flow (guard clauses, merged or split conditions, loop fusion or fission, a lookup table instead of an if-chain, `any`/`all`/`next` instead of a flag loop), or change how intermediate values are held (a temporary introduced or removed, tuple unpacking, a dict/zip built differently). Be as bold as a confident maintainer would be - but stay exactly equivalent.')
+
+
 def main():
+    global T
+    if os.environ.get('ROUND') == '2':
+        T = T.replace('YOUR TASK: produce 3 independent, BEHAVIOUR-PRESERVING refactors', BOLD[0]).replace('The three should differ in kind.', 'The four should differ in kind.' + BOLD[1]).replace('For each change n in 1..3', 'For each change n in 1..4')
     root = sys.argv[1]
     props = {json.loads(l)['id']: json.loads(l) for l in open(os.path.join(HERE, 'properties.jsonl'))}
     pids = sys.argv[2:] or [p for p in sorted(props) if p not in ('C12',)]
